@@ -95,43 +95,109 @@ def scan(item):
 
 
 MNEMONIC = "legal winner thank year wave sausage worth useful legal winner thank yellow"
+MNEMONIC2 = "letter advice cage absurd amount doctor acoustic avoid letter advice cage above"
+ENTROPY_PATHS = ["m/83696968'/0'/0'", "m/84'/0'/0'", "m/83696968'/39'/0'/12'/0'", "m/1'", "m/0/1", "m/83696968'/2'/0'", "m/44'/0'/0'/0/0"]
+HANDLE_PATHS = ["m/0", "m/44'/0'/0'/0", "m/1/2", "m/84'/0'/0'"]
 
 
 def _ops(rng, wallet_is_private=True):
+    """requests on three wallets that live in the same process: 0 = the wallet under test, 1 = a wallet of another
+    mnemonic, 2 = the watch-only wallet of an account of wallet 0.  Windows of generate_children nest and widen,
+    nodes obtained once are reused through handles, BIP85 is asked for arbitrary paths and all applications."""
     ops = []
-    for _ in range(rng.randrange(4, 12)):
-        k = rng.randrange(7)
+    for _ in range(rng.randrange(4, 14)):
+        k = rng.randrange(11)
+        who = rng.choice([0, 0, 0, 1, 2])
         if k == 0:
             path = "m/" + "/".join(str(rng.randrange(0, 50)) + rng.choice(["", "'", "h"]) for _ in range(rng.randrange(0, 5)))
-            ops.append(("by_path", path.rstrip("/")))
+            op = ("by_path", path.rstrip("/"))
         elif k == 1:
-            ops.append(("ckd", rng.randrange(0, 6) + rng.choice([0, 2 ** 31])))
+            op = ("ckd", rng.randrange(0, 6) + rng.choice([0, 2 ** 31]))
         elif k == 2:
-            a = rng.randrange(0, 30)
-            ops.append(("generate_children", (a, a + rng.randrange(-1, 4))))
+            a = rng.choice([0, 0, 0, rng.randrange(0, 30)])
+            op = ("generate_children", (a, a + rng.choice([-1, 0, 1, 2, 3, 3, 6, 9])))
         elif k == 3:
-            ops.append(("gen", [rng.choice([None, 0, 1, 2, 5]) for _ in range(rng.randrange(1, 5))]))
+            op = ("gen", [rng.choice([None, 0, 1, 2, 5]) for _ in range(rng.randrange(1, 5))])
         elif k == 4:
             a = rng.randrange(0, 25)
-            ops.append(("bip", rng.choice(["bip44", "bip49", "bip84"]), rng.randrange(0, 3), (a, a + rng.randrange(0, 3))))
+            op = ("bip", rng.choice(["bip44", "bip49", "bip84"]), rng.randrange(0, 3), (a, a + rng.randrange(0, 3)))
         elif k == 5:
-            ops.append(("bip85", rng.choice(["wif", "xprv"]), rng.randrange(0, 3)))
+            app = rng.choice(["wif", "xprv", "hex", "pwd", "bip39_mnemonic"])
+            kw = {"hex": dict(num_bytes=rng.choice([16, 32, 64])), "pwd": dict(pwd_len=rng.choice([20, 21, 86])),
+                  "bip39_mnemonic": dict(word_count=rng.choice([12, 18, 24]))}.get(app, {})
+            op = ("bip85", app, rng.randrange(0, 3), tuple(sorted(kw.items())))
+        elif k == 6:
+            op = ("entropy", rng.choice(ENTROPY_PATHS))
+        elif k == 7:
+            a = rng.choice([0, 0, rng.randrange(0, 10)])
+            op = ("handle_children", rng.choice(HANDLE_PATHS), (a, a + rng.choice([1, 3, 6, 9])))
+        elif k == 8:
+            op = ("handle_ckd", rng.choice(HANDLE_PATHS), rng.randrange(0, 4) + rng.choice([0, 0, 2 ** 31]))
+        elif k == 9:
+            op = ("addr", rng.choice(HANDLE_PATHS), rng.choice(["p2pkh_address", "p2wpkh_address", "p2sh_p2wpkh_address", "p2wsh_address", "p2sh_p2wsh_address"]))
         else:
-            ops.append(("xkeys",))
+            op = ("xkeys",)
+        ops.append((who,) + op)
     return ops
 
 
-def _apply(wallet, op):
+SCRIPTED = [
+    # widening look-ahead windows on one node (duplicates accumulate in `children`)
+    [(0, "generate_children", (0, 3)), (0, "generate_children", (0, 6)), (0, "generate_children", (0, 9)), (0, "generate_children", (0, 3))],
+    [(0, "handle_children", "m/0", (0, 3)), (0, "handle_children", "m/0", (0, 6)), (0, "handle_children", "m/0", (0, 9)), (0, "handle_children", "m/0", (2, 5))],
+    # the same child asked twice, then a window that contains it
+    [(0, "ckd", 1), (0, "ckd", 1), (0, "generate_children", (0, 2)), (0, "generate_children", (1, 3)), (0, "ckd", 1)],
+    [(0, "handle_ckd", "m/1/2", 0), (0, "handle_ckd", "m/1/2", 0), (0, "handle_children", "m/1/2", (0, 2)), (0, "handle_ckd", "m/1/2", 2 ** 31), (0, "handle_ckd", "m/1/2", 2 ** 31)],
+    # two generators on one node, then bulk generation
+    [(0, "gen", [None, None]), (0, "gen", [0, 2]), (0, "generate_children", (0, 4)), (0, "gen", [5, None, 0])],
+    # BIP85 after/before foreign paths, all applications
+    [(0, "bip85", "wif", 0, ()), (0, "entropy", "m/84'/0'/0'"), (0, "entropy", "m/83696968'/2'/0'"), (0, "bip85", "wif", 0, ())],
+    [(0, "entropy", "m/84'/0'/0'"), (0, "bip85", "xprv", 1, ()), (0, "bip85", "hex", 0, (("num_bytes", 16),)), (0, "bip85", "pwd", 0, (("pwd_len", 20),)),
+     (0, "bip85", "bip39_mnemonic", 0, (("word_count", 12),)), (0, "bip85", "bip39_mnemonic", 0, (("word_count", 24),))],
+    # the same request on wallets of different secrets and on the watch-only twin
+    [(0, "bip", "bip84", 0, (0, 2)), (1, "bip", "bip84", 0, (0, 2)), (0, "bip", "bip84", 0, (0, 2)), (1, "bip85", "wif", 0, ()), (0, "bip85", "wif", 0, ())],
+    [(0, "by_path", "m/84'/0'/0'/0/3"), (2, "by_path", "m/0/3"), (2, "handle_children", "m/0", (0, 4)), (0, "by_path", "m/84'/1'/0'/0/3"), (2, "addr", "m/0", "p2wpkh_address")],
+    [(2, "by_path", "m/0/3"), (0, "by_path", "m/84'/0'/0'/0/3"), (0, "by_path", "m/84'/1'/0'/0/3"), (2, "by_path", "m/0/3"), (1, "by_path", "m/84'/0'/0'/0/3")],
+    [(0, "addr", "m/0", "p2wsh_address"), (1, "addr", "m/0", "p2wsh_address"), (0, "addr", "m/0", "p2sh_p2wsh_address"), (0, "addr", "m/0", "p2pkh_address"), (0, "xkeys",), (1, "xkeys",), (2, "xkeys",)],
+]
+
+
+def _wallets(testnet):
+    from btc_hd_wallet import PaperWallet
+    w0 = PaperWallet.from_mnemonic(MNEMONIC, testnet=testnet)
+    w1 = PaperWallet.from_mnemonic(MNEMONIC2, testnet=testnet)
+    acct = PaperWallet.from_mnemonic(MNEMONIC, testnet=testnet).by_path("m/84'/%d'/0'" % (1 if testnet else 0))
+    w2 = PaperWallet.from_extended_key(acct.extended_public_key())
+    return [w0, w1, w2], [{}, {}, {}]
+
+
+def _apply(wallets, handles, op):
     def node_repr(n):
         return (type(n).__name__, n.key.hex(), n.chain_code.hex(), n.depth, n.index, n.testnet, n.parent_fingerprint.hex(), str(n))
+    who, op = op[0], op[1:]
+    wallet, hs = wallets[who], handles[who]
+
+    def handle(path):
+        if wallet.watch_only:
+            path = "M/" + "/".join(x for x in path.split("/")[1:] if not x.endswith("'"))
+            path = path.rstrip("/")
+        if path not in hs:
+            hs[path] = wallet.by_path(path)
+        return hs[path]
     try:
         if op[0] == "by_path":
-            return node_repr(wallet.by_path(op[1]))
+            return node_repr(wallet.by_path(op[1] if not wallet.watch_only else "M" + op[1][1:]))
         if op[0] == "ckd":
             return node_repr(wallet.master.ckd(op[1]))
         if op[0] == "generate_children":
             # on the SHARED master node: concurrent requests append to the same children list
             return [node_repr(n) for n in wallet.master.generate_children(op[1])]
+        if op[0] == "handle_children":
+            return [node_repr(n) for n in handle(op[1]).generate_children(op[2])]
+        if op[0] == "handle_ckd":
+            return node_repr(handle(op[1]).ckd(op[2]))
+        if op[0] == "addr":
+            return getattr(wallet, op[2])(handle(op[1]))
         if op[0] == "gen":
             node = wallet.master
             g = wallet.address_generator(node)
@@ -142,25 +208,26 @@ def _apply(wallet, op):
         if op[0] == "bip":
             return getattr(wallet, op[1])(account=op[2], interval=op[3])
         if op[0] == "bip85":
-            return getattr(wallet.bip85, op[1])(index=op[2])
+            return getattr(wallet.bip85, op[1])(index=op[2], **dict(op[3]))
+        if op[0] == "entropy":
+            return wallet.bip85.entropy(op[1]).hex()
         if op[0] == "xkeys":
-            return (wallet.master.extended_private_key(), wallet.master.extended_public_key(), wallet.node_extended_keys(wallet.master))
+            return (wallet.master.extended_public_key(), wallet.node_extended_keys(wallet.master))
     except Exception as e:
         return ("raised", type(e).__name__)
 
 
 def history(item):
-    from btc_hd_wallet import PaperWallet
     rng = random.Random(item.get("seed", 0) * 7 + 13)
-    rounds = 15 if item.get("tier") == "quick" else 150
+    rounds = len(SCRIPTED) + (24 if item.get("tier") == "quick" else 200)
     bad = None
     evals = 0
     for r in range(rounds):
         testnet = rng.random() < 0.5
-        shared = PaperWallet.from_mnemonic(MNEMONIC, testnet=testnet)
-        root_before = shared.master.extended_private_key()
-        ops = _ops(rng)
-        threaded = r % 3 == 2
+        shared, sh_handles = _wallets(testnet)
+        roots_before = [w.master.extended_public_key() for w in shared]
+        ops = SCRIPTED[r] if r < len(SCRIPTED) else _ops(rng)
+        threaded = r % 3 == 2 and r >= len(SCRIPTED)
         results = [None] * len(ops)
         if threaded:
             import sys
@@ -178,7 +245,7 @@ def history(item):
                 _time.sleep(0.0004)
                 return r
             _b32.hmac_sha512 = _yielding_hmac
-            ths = [threading.Thread(target=lambda i=i: results.__setitem__(i, _apply(shared, ops[i]))) for i in range(len(ops))]
+            ths = [threading.Thread(target=lambda i=i: results.__setitem__(i, _apply(shared, sh_handles, ops[i]))) for i in range(len(ops))]
             for t in ths:
                 t.start()
             for t in ths:
@@ -187,19 +254,19 @@ def history(item):
             _b32.hmac_sha512 = _real_hmac
         else:
             for i, op in enumerate(ops):
-                results[i] = _apply(shared, op)
+                results[i] = _apply(shared, sh_handles, op)
         for i, op in enumerate(ops):
-            fresh = PaperWallet.from_mnemonic(MNEMONIC, testnet=testnet)
-            want = _apply(fresh, op)
+            fresh, fh = _wallets(testnet)
+            want = _apply(fresh, fh, op)
             evals += 1
             if results[i] != want and bad is None:
                 bad = f"{'threaded' if threaded else 'sequential'} history {ops[:i + 1]!r}: result of {op!r} differs from a stateless recomputation"
-        if shared.master.extended_private_key() != root_before and bad is None:
+        if [w.master.extended_public_key() for w in shared] != roots_before and bad is None:
             bad = "root key changed by a history of requests"
         if bad:
             break
     o = dict(name="C13.bounded.history", kind="bounded", backend="bounded", verdict="HELD" if bad is None else "VIOLATED", evaluations=evals,
-             bound=f"{rounds} seeded histories of 4..11 API calls on shared objects (every third one from concurrent threads), seed {item.get('seed', 0)}",
+             bound=f"{len(SCRIPTED)} scripted + {rounds - len(SCRIPTED)} seeded histories of 4..13 API calls on three wallets sharing a process (same mnemonic, other mnemonic, watch-only account; reused node handles, nested windows, arbitrary BIP85 paths; every third history from concurrent threads), seed {item.get('seed', 0)}",
              clause="C13.bounded.history")
     if bad:
         o.update(detail=bad, confirmed=True, replay=dict(confirmed=True, failed=[bad]))
